@@ -3,10 +3,195 @@
 -/
 import BitstringModel.Model.C03
 import BitstringModel.Proofs.C03
+import BitstringModel.Props.C01
 import Mathlib.Tactic.Ring
 import Mathlib.Tactic.Linarith
 import Mathlib.Data.List.Basic
+import Mathlib.Data.List.Nodup
 namespace BM.C03
 open BM
+
+/-! ### slice positions -/
+
+theorem slicePositions_eq (a b : Option Int) (st : Int) (n : Nat) :
+    PyL.slicePositions a b st n =
+      (List.range (Py.rangeLen (Py.sliceIndices a b st n).1 (Py.sliceIndices a b st n).2.1 st)).map
+        (fun (k : Nat) => ((Py.sliceIndices a b st n).1 + (k : Int) * st).toNat) := by
+  simp only [PyL.slicePositions, Py.rangeList, List.map_map]
+  rfl
+
+theorem slicePositions_length (a b : Option Int) (st : Int) (n : Nat) :
+    (PyL.slicePositions a b st n).length =
+      Py.rangeLen (Py.sliceIndices a b st n).1 (Py.sliceIndices a b st n).2.1 st := by
+  rw [slicePositions_eq]; simp
+
+theorem slicePositions_lt' (a b : Option Int) (st : Int) (hst : st ≠ 0) (n : Nat) :
+    ∀ i ∈ PyL.slicePositions a b st n, i < n := by
+  intro i hi
+  rw [slicePositions_eq, List.mem_map] at hi
+  obtain ⟨k, hk, rfl⟩ := hi
+  rw [List.mem_range] at hk
+  exact C01.sliceIndices_toNat_lt a b st hst n k hk
+
+theorem slicePositions_nodup' (a b : Option Int) (st : Int) (hst : st ≠ 0) (n : Nat) :
+    (PyL.slicePositions a b st n).Nodup := by
+  rw [slicePositions_eq]
+  apply List.Nodup.map_on _ List.nodup_range
+  intro x hx y hy hxy
+  rw [List.mem_range] at hx hy
+  have h1 := C01.sliceIndices_bounds a b st hst n x hx
+  have h2 := C01.sliceIndices_bounds a b st hst n y hy
+  have h3 : (x : Int) * st = (y : Int) * st := by omega
+  have := Int.eq_of_mul_eq_mul_right hst h3
+  omega
+
+theorem assignAt_length {α} (l : List α) (idx : List Nat) (v : List α) :
+    (PyL.assignAt l idx v).length = l.length := by
+  induction idx generalizing l v with
+  | nil => simp [PyL.assignAt]
+  | cons i is ih =>
+    cases v with
+    | nil => simp [PyL.assignAt]
+    | cons x xs => simp [PyL.assignAt, ih]
+
+theorem assignAt_not_mem {α} (l : List α) (idx : List Nat) (v : List α) (i : Nat) (hi : i ∉ idx) :
+    (PyL.assignAt l idx v)[i]? = l[i]? := by
+  induction idx generalizing l v with
+  | nil => simp [PyL.assignAt]
+  | cons j is ih =>
+    cases v with
+    | nil => simp [PyL.assignAt]
+    | cons x xs =>
+      simp only [PyL.assignAt]
+      rw [ih _ _ (fun h => hi (List.mem_cons_of_mem _ h))]
+      rw [List.getElem?_set_ne]
+      intro h; exact hi (h ▸ List.mem_cons_self)
+
+theorem assignAt_getElem {α} (l : List α) (idx : List Nat) (v : List α) (hnd : idx.Nodup)
+    (hlen : idx.length = v.length) (hlt : ∀ i ∈ idx, i < l.length) (k : Nat) (hk : k < idx.length) :
+    (PyL.assignAt l idx v)[idx[k]]? = v[k]? := by
+  induction idx generalizing l v k with
+  | nil => simp at hk
+  | cons j is ih =>
+    cases v with
+    | nil => simp at hlen
+    | cons x xs =>
+      simp only [PyL.assignAt]
+      rw [List.nodup_cons] at hnd
+      cases k with
+      | zero =>
+        simp only [List.getElem_cons_zero, List.getElem?_cons_zero]
+        rw [assignAt_not_mem _ _ _ _ hnd.1, List.getElem?_set_self (hlt j List.mem_cons_self)]
+      | succ k =>
+        simp only [List.getElem_cons_succ, List.getElem?_cons_succ]
+        apply ih _ _ hnd.2 (by simpa using hlen)
+        intro i hi
+        rw [List.length_set]
+        exact hlt i (List.mem_cons_of_mem _ hi)
+
+/-! ### removeAt -/
+
+theorem fm_range_sublist {α} (l : List α) (p : Nat → Bool) :
+    ((List.range l.length).filterMap fun i => if p i then none else l[i]?).Sublist l := by
+  induction l generalizing p with
+  | nil => simp
+  | cons x xs ih =>
+    rw [List.length_cons, List.range_succ_eq_map, List.filterMap_cons, List.filterMap_map]
+    have h := ih (fun i => p (i + 1))
+    have e : ((fun i => if p i = true then none else (x :: xs)[i]?) ∘ Nat.succ) =
+        (fun i => if (fun i => p (i + 1)) i = true then none else xs[i]?) := by
+      funext i; simp
+    rw [e]
+    by_cases h0 : p 0 = true
+    · simp only [h0, if_true]
+      exact List.Sublist.cons _ h
+    · simp only [h0]
+      exact List.Sublist.cons_cons _ h
+
+theorem removeAt_sublist {α} (l : List α) (idx : List Nat) : (PyL.removeAt l idx).Sublist l := by
+  have := fm_range_sublist l (fun i => decide (i ∈ idx))
+  simpa [PyL.removeAt] using this
+
+theorem fm_filter_length {α} (l : List α) (idx : List Nat) (L : List Nat) (hL : ∀ i ∈ L, i < l.length) :
+    (L.filterMap fun i => if i ∈ idx then none else l[i]?).length + (L.filter (· ∈ idx)).length = L.length := by
+  induction L with
+  | nil => simp
+  | cons j js ih =>
+    have hj := hL j List.mem_cons_self
+    have ih := ih (fun i hi => hL i (List.mem_cons_of_mem _ hi))
+    by_cases hm : j ∈ idx
+    · simp only [List.filterMap_cons, hm, if_true, List.filter_cons, decide_true, List.length_cons]
+      omega
+    · simp only [List.filterMap_cons, hm, if_false, List.filter_cons, decide_false, List.length_cons,
+        List.getElem?_eq_getElem hj]
+      simp only [Bool.false_eq_true, if_false]
+      omega
+
+theorem removeAt_length {α} (l : List α) (idx : List Nat) (hnd : idx.Nodup) (hlt : ∀ i ∈ idx, i < l.length) :
+    (PyL.removeAt l idx).length + idx.length = l.length := by
+  have h1 := fm_filter_length l idx (List.range l.length) (fun i hi => List.mem_range.mp hi)
+  have h2 : ((List.range l.length).filter (· ∈ idx)).length = idx.length := by
+    apply Nat.le_antisymm
+    · apply List.Nodup.length_le_of_subset (List.nodup_range.filter _)
+      intro i hi
+      simpa using (List.mem_filter.mp hi).2
+    · apply List.Nodup.length_le_of_subset hnd
+      intro i hi
+      rw [List.mem_filter]
+      exact ⟨List.mem_range.mpr (hlt i hi), by simpa using hi⟩
+  rw [List.length_range] at h1
+  unfold PyL.removeAt
+  omega
+
+/-! bits -/
+
+theorem bitsToInt_eq (b : Bits) (hb : b ≠ []) :
+    bitsToInt b = if 2 ^ (b.length - 1) ≤ bitsToNat b then (bitsToNat b : Int) - (2 : Int) ^ b.length
+      else (bitsToNat b : Int) := by
+  cases b with
+  | nil => exact absurd rfl hb
+  | cons s rest =>
+    have h1 := bitsToNat_cons s rest
+    have h2 := bitsToNat_lt rest
+    simp only [bitsToInt, List.length_cons, Nat.add_sub_cancel]
+    cases s with
+    | true =>
+      have : 2 ^ rest.length ≤ bitsToNat (true :: rest) := by rw [h1]; simp
+      simp [this]
+    | false =>
+      have : ¬ 2 ^ rest.length ≤ bitsToNat (false :: rest) := by rw [h1]; simp; omega
+      simp [this]
+
+theorem two_pow_pred (k : Nat) (hk : k ≠ 0) : (2 : Int) ^ k = 2 * (2 : Int) ^ (k - 1) := by
+  obtain ⟨m, rfl⟩ := Nat.exists_eq_succ_of_ne_zero hk
+  simp [pow_succ]; ring
+
+theorem two_pow_cast (k : Nat) : (2 : Int) ^ k = ((2 ^ k : Nat) : Int) := by
+  push_cast; rfl
+
+theorem intToBits_neg (k : Nat) (v : Int) (hk : k ≠ 0) (hv : v < 0) (hlo : -((2 : Int) ^ (k - 1)) ≤ v) :
+    (intToBits k v).length = k ∧ bitsToInt (intToBits k v) = v := by
+  have hlen : (intToBits k v).length = k := by simp [intToBits]
+  refine ⟨hlen, ?_⟩
+  have hne : intToBits k v ≠ [] := by
+    intro h; rw [h] at hlen; simp at hlen; omega
+  have hp := two_pow_pred k hk
+  have hpos : (0 : Int) < (2 : Int) ^ (k - 1) := by positivity
+  have hmod : v % (2 : Int) ^ k = v + (2 : Int) ^ k := by
+    rw [← Int.add_mul_emod_self_left v ((2 : Int) ^ k) 1, Int.mul_one]
+    exact Int.emod_eq_of_lt (by omega) (by omega)
+  have hnat : bitsToNat (intToBits k v) = (v + (2 : Int) ^ k).toNat := by
+    unfold intToBits
+    rw [hmod, bitsToNat_natToBits]
+    have : ((v + (2 : Int) ^ k).toNat : Int) < ((2 ^ k : Nat) : Int) := by
+      rw [← two_pow_cast]; omega
+    exact_mod_cast this
+  rw [bitsToInt_eq _ hne, hlen, hnat]
+  have hc : 2 ^ (k - 1) ≤ (v + (2 : Int) ^ k).toNat := by
+    have : (((2 : Nat) ^ (k - 1) : Nat) : Int) ≤ ((v + (2 : Int) ^ k).toNat : Int) := by
+      rw [← two_pow_cast]; omega
+    exact_mod_cast this
+  rw [if_pos hc]
+  omega
 
 end BM.C03
